@@ -15,8 +15,8 @@ Allowed(r) ==
   /\ (r.e.outcome = "css" => StyleEquivalent(r.e.toks, r.c.toks))
 
 Init == l = 1
-Observe == l <= Len(Rec) /\ Allowed(Rec[l]) /\ l' = l + 1
-Reject  == /\ l <= Len(Rec) /\ ~Allowed(Rec[l])
+Observe == l <= Len(Rec) /\ (Allowed(Rec[l]) = TRUE) /\ l' = l + 1
+Reject  == /\ l <= Len(Rec) /\ (Allowed(Rec[l]) = FALSE)
            /\ PrintT(<<"REJECT", ToJson([id |-> Rec[l].id, outcome |-> Rec[l].e.outcome = Rec[l].c.outcome,
                                           log |-> Rec[l].e.log = Rec[l].c.log])>>)
            /\ l' = l + 1
